@@ -9,6 +9,8 @@ transaction committed with wait; the journal's contract is validated on recorded
 by the crash harness — listed as pending for C17 until the simple crash run exists.
 -/
 import GoNfsd.Model.Simple
+import GoNfsd.Gen.Skeleton
+import GoNfsd.Lemmas.Reveal
 
 namespace GoNfsd.Props.C17
 open GoNfsd.Model.Simple GoNfsd.Gen.Consts
@@ -264,5 +266,33 @@ theorem objects_disjoint (i j : Nat) (hi : i < nInode) (hj : j < nInode) (hij : 
 
 /-- Non-vacuity: a WRITE of three bytes to file 3 of the initial state succeeds. -/
 example : (step init (.write [3, 0, 0, 0, 0, 0, 0, 0] 0 3 [1, 2, 3])).2 = .write 3 := by decide
+
+/-! ### acknowledged replies reveal only what is durable -/
+
+/-- Every handler of simple/ops.go that touches an inode holds that inode's lock from before its
+    body until after the body's commit, and every commit waits for the disk (table regenerated from
+    simple/ops.go on every run).  This is the discipline of model M11. -/
+theorem simple_holds_the_lock_across_the_waiting_commit :
+    ∀ f ∈ GoNfsd.Gen.Skeleton.simpleLockUses, GoNfsd.Model.Skeleton.simpleCheck f = true := by decide
+
+/-- the rule bites: a body called without the lock (the seeded change C17k: GETATTR), a commit that
+    does not wait, and a lock given back before the body are refused; the table is not empty -/
+example : GoNfsd.Model.Skeleton.simpleCheck ("NFSPROC3_GETATTR", false, [(2, "NFSPROC3_GETATTR_internal")]) = false := by decide
+example : GoNfsd.Model.Skeleton.simpleCheck ("NFSPROC3_WRITE_internal", true, [(3, "false")]) = false := by decide
+example : GoNfsd.Model.Skeleton.simpleCheck ("NFSPROC3_WRITE", false, [(0, ""), (1, ""), (2, "NFSPROC3_WRITE_internal")]) = false := by decide
+example : ("NFSPROC3_GETATTR", false, [(0, ""), (2, "NFSPROC3_GETATTR_internal"), (1, "")]) ∈ GoNfsd.Gen.Skeleton.simpleLockUses := by decide
+
+/-- why: under that discipline, in every state reachable by any interleaving of any requests (with
+    the journal's logger running in the background), what a request reads under the lock is what
+    the server has after a crash at that moment — a GETATTR or READ reply never reports a WRITE or
+    SETATTR that a crash can still undo (simple has no unstable writes). -/
+theorem simple_replies_reveal_only_durable_state (ops : List GoNfsd.Model.Reveal.Op) (s : GoNfsd.Model.Reveal.St) (t k : Nat)
+    (hd : GoNfsd.Model.Reveal.Disciplined GoNfsd.Model.Reveal.empty ops)
+    (hr : GoNfsd.Model.Reveal.run GoNfsd.Model.Reveal.empty ops = some s)
+    (hl : s.lock k = some t) (hp : ∀ c ∈ s.pend, c.1 ≠ t) (hu : ∀ c ∈ s.pend, c.2.1 = false) :
+    s.read k = s.recovered k :=
+  GoNfsd.Model.Reveal.read_is_recovered s t k
+    (GoNfsd.Model.Reveal.run_inv ops _ s GoNfsd.Model.Reveal.empty_inv hd hr) hl hp
+    (fun c hc h1 => by rw [hu c hc] at h1; cases h1)
 
 end GoNfsd.Props.C17
